@@ -99,20 +99,17 @@ deriving DecidableEq, Repr
 
 def noneStr : Str := ['`', '`', '`', '(', 'N', 'o', 'n', 'e', ')', '`', '`', '`']
 
-/-- `get_doc_str(node) or ""`.  `get_doc_str` tests `isinstance(node, (ClassDef, FunctionDef))` — an
-    `AsyncFunctionDef` never has a docstring for it. -/
-def newDocOf (k : DefKind) (b : Body0) : Except Err NewDoc :=
-  match k with
-  | .asyncFn => .ok .empty
-  | _ =>
-    match b with
-    | .noBody => .error "IndexError"
-    | .notExpr => .ok .empty
-    | .nonConst => .ok .empty
-    | .str s => .ok (if s.isEmpty then .empty else .text s)
-    | .noneConst => .ok (.text noneStr)
-    | .falsy => .ok .empty
-    | .truthy b => .ok (.bad b)
+/-- `get_doc_str(node) or ""`.  `get_doc_str` tests `isinstance(node, (AsyncFunctionDef, ClassDef, FunctionDef))`,
+    which holds for every definition `doctransify_cst` hands it: the answer does not depend on the kind. -/
+def newDocOf (b : Body0) : Except Err NewDoc :=
+  match b with
+  | .noBody => .error "IndexError"
+  | .notExpr => .ok .empty
+  | .nonConst => .ok .empty
+  | .str s => .ok (if s.isEmpty then .empty else .text s)
+  | .noneConst => .ok (.text noneStr)
+  | .falsy => .ok .empty
+  | .truthy b => .ok (.bad b)
 
 def tq3 : Str := ['"', '"', '"']
 
@@ -169,7 +166,7 @@ def deleteAt {α} : List α → Nat → List α
 
 /-- `maybe_replace_doc_str_in_function_or_class`: new list and the debug line printed (if any). -/
 def replaceDoc (nodes : List Node) (idx : Nat) (e : FnEdit) : Except Err (List Node × List Str) := do
-  let nd ← newDocOf e.kind e.body0
+  let nd ← newDocOf e.body0
   let after := (nodes[idx + 1]?).getD emptyLine
   let existing := isDocTQ after
   match nd, existing with
